@@ -460,3 +460,20 @@ Example preview_prefix_example :      (* "héllo\n", 3 graphemes: cut 4, preview
   Forall (fun e => e <= length shown) (g shown) /\ preview_cut g 3 shown = 4 /\
   firstn (trim_line_terminator (LTByte 10%N) shown 0 4) shown = [104; 195; 169; 108]%N.
 Proof. vm_compute. repeat split; repeat constructor. Qed.
+
+(* (c) --vimgrep prints one line per match even when the match spans lines (per_match_one_line; issue 1866).
+       With a column limit that rule is lost when the first line of the match is too long: the `continue` after
+       write_exceeded_line in sink_slow_multi_per_match also skips the `break`.  "aaaaaaaaaa\nb\n", match (0,12),
+       -M 5: two records (two terminators) for one match; without the limit one record. *)
+Theorem vimgrep_one_line_per_match_refuted :
+  exists cfg sk limit,
+    st_per_match cfg = true /\ st_per_match_one_line cfg = true /\ length (k_matches sk) = 1 /\
+    let env := mkEnv (LTByte 10%N) true false 0 false false in
+    count_occ N.eq_dec (w_out (sink_slow_multi_line_c ex_gends cfg cols_off env None sk w_new)) 10%N = 1 /\
+    count_occ N.eq_dec (w_out (sink_slow_multi_line_c ex_gends cfg (mkCol (Some limit) false false) env None sk w_new)) 10%N = 2.
+Proof.
+  exists (mkStd false true false true true None true false false None None [58]%N [45]%N None),
+         (mkSunk [97; 97; 97; 97; 97; 97; 97; 97; 97; 97; 10; 98; 10]%N 0 (Some 1) None [(0, 12)]), 5.
+  vm_compute. repeat split; reflexivity.
+Qed.
+Print Assumptions vimgrep_one_line_per_match_refuted.
